@@ -112,6 +112,10 @@ def snaHeader (g : Regs) (sp : BitVec 16) (border : Byte) : Bytes :=
    lo8 g.hl, hi8 g.hl, lo8 g.de, hi8 g.de, lo8 g.bc, hi8 g.bc, lo8 g.iy, hi8 g.iy, lo8 g.ix, hi8 g.ix,
    if g.iff2 then 4 else 0, g.r, lo8 g.af, hi8 g.af, lo8 sp, hi8 sp, BitVec.ofNat 8 g.im, border]
 
+/-- What SNA keeps of the Z80 state: everything except IFF1 (the header stores IFF2 only; a loaded
+machine has IFF1 = IFF2). -/
+def snaCarried (g : Regs) : Regs := { g with iff1 := g.iff2 }
+
 /-- the six banks after the secondary header: ascending, without the one already stored third -/
 def snaTail (n : Nat) : List Nat := [0, 1, 3, 4, 6, 7].filter (· != n)
 
